@@ -9,6 +9,16 @@ COUNT_DECLS = """
 use std::cell::Cell;
 thread_local! { pub static TICKS: Cell<u32> = Cell::new(0); pub static DEBUGS: Cell<u32> = Cell::new(0); }
 pub fn tick<T>(x: T) -> T { TICKS.with(|c| c.set(c.get() + 1)); x }
+/// a minimal executor for the `.await` field operation (the futures used are ready at once)
+pub fn block_on<F: std::future::Future>(f: F) -> F::Output {
+    use std::task::{Context, Poll, Wake, Waker};
+    struct Noop;
+    impl Wake for Noop { fn wake(self: std::sync::Arc<Self>) {} }
+    let w = Waker::from(std::sync::Arc::new(Noop));
+    let mut cx = Context::from_waker(&w);
+    let mut f = std::pin::pin!(f);
+    loop { if let Poll::Ready(v) = f.as_mut().poll(&mut cx) { return v; } }
+}
 """
 
 
@@ -70,7 +80,7 @@ def make_cases(rng, nbase):
         T = g.rust_type(t)
         E = g.rust_expr(v, t)
         S = tgen.sexp(v)
-        for mode in ("root", "chain"):
+        for mode in ("root", "chain", "index", "arg", "await"):
             c = t3.Case()
             c.id = k
             k += 1
@@ -83,9 +93,21 @@ def make_cases(rng, nbase):
                 t3.finish_case(c, g.decls() + COUNT_DECLS, T, E, S, pat)
                 c.text = "tick(&v), " + pat
             else:
-                decls = g.decls() + COUNT_DECLS + "#[derive(Debug)] pub struct W { f: %s }\nimpl W { pub fn get(&self) -> &%s { tick(&self.f) } }\n#[derive(Debug)] pub struct W2 { w: W }" % (T, T)
                 adt = lambda ctor, names, vals: "(adt %s (names %s) (vals %s))" % (tgen.hexs(ctor), " ".join(tgen.hexs(n) for n in names), " ".join(vals))
-                t3.finish_case(c, decls, "W2", "W2 { w: W { f: %s } }" % E, adt("W2", ["w"], [adt("W", ["f"], [S])]), "W2 { w.get(): %s }" % pat)
+                if mode == "index":
+                    # a user Index impl that counts: `w[0]: P`
+                    decls = g.decls() + COUNT_DECLS + ("#[derive(Debug)] pub struct W { f: %s }\nimpl std::ops::Index<usize> for W { type Output = %s; fn index(&self, _i: usize) -> &%s { tick(&self.f) } }\n"
+                                                       "#[derive(Debug)] pub struct W2 { w: W }" % (T, T, T))
+                    c.meanings = c.meanings[:-1] + " (v %s (int 0)))" % tgen.hexs("0")
+                    t3.finish_case(c, decls, "W2", "W2 { w: W { f: %s } }" % E, adt("W2", ["w"], ["(seq %s)" % S]), "W2 { w[0]: %s }" % pat)
+                else:
+                    decls = g.decls() + COUNT_DECLS + ("#[derive(Debug)] pub struct W { f: %s }\nimpl W { pub fn get(&self) -> &%s { tick(&self.f) } pub fn at(&self, _i: usize) -> &%s { &self.f } "
+                                                       "pub async fn aget(&self) -> &%s { tick(&self.f) } }\n#[derive(Debug)] pub struct W2 { w: W }" % (T, T, T, T))
+                    path = {"chain": "w.get()", "arg": "w.at(tick(0))", "await": "w.aget().await"}[mode]
+                    c.meanings = c.meanings[:-1] + " (m %s %s) (m %s %s))" % (tgen.hexs("at"), tgen.hexs("field:f"), tgen.hexs("aget"), tgen.hexs("field:f"))
+                    t3.finish_case(c, decls, "W2", "W2 { w: W { f: %s } }" % E, adt("W2", ["w"], [adt("W", ["f"], [S])]), "W2 { %s: %s }" % (path, pat))
+                    if mode == "await":
+                        c.wrap_open, c.wrap_close = "block_on(async {", "})"
             c.setup = "TICKS.with(|c| c.set(0));"
             c.post = 'println!("X %d ticks={}", TICKS.with(|c| c.get()));' % c.id
             cases.append(c)
@@ -180,9 +202,9 @@ def run(ck):
     ck.corr_record("T3 evaluation counters (asserted expression and method-call chains wrapped in counting calls; every form, passing and failing)",
                    len(cases), len({c.text + c.value_text for c in cases}), 0, dist,
                    samples=[dict(invocation="assert_struct!(%s)" % c.text[:150], outcome=c.got[0], ticks=getattr(c, "extra", {}).get("ticks")) for c in cases[:3]],
-                   rule="every atom form / range shape / compound type of the C11 catalogue x {matching, bound-crossing value} x {counting asserted expression, counting getter chain}; every case distinct")
+                   rule="every atom form / range shape / compound type of the C11 catalogue x {matching, bound-crossing value} x {counting asserted expression, counting getter chain, counting user Index impl, counting method argument, counting async getter under .await}; every case distinct")
     if t2_mm and not found:
         ck.report("corr:T2-body", "the model of the code generator no longer matches the real expansion (%d inputs differ)" % len(t2_mm),
                   dict(broken="correspondence T2 (expansion tokens)", theorems=["C08_root_bound_once", "C08_leaf_evaluations"], first=t2_mm[:3]), no_input=True)
     debug_part(ck)
-    ck.assumptions += ["evaluation counts are observed through counting wrappers in generated programs; `.await` and custom Index impls are not instrumented"]
+    ck.assumptions += ["evaluation counts are observed through counting wrappers in generated programs (method calls, method arguments, a user Index impl, an async method under .await with a minimal executor)"]
